@@ -23,11 +23,11 @@ import (
 func init() {
 	simkit.Register(&simkit.Property{
 		ID: "C14", Level: "exploration", Bubble: false, Run: runC14,
-		Rule: "Event path shuttermint -> keyper. (a) generated typed events of all 8 types with boundary values (0, 1, 2^63, 2^64-1, empty / single / several element lists, empty byte strings, zero big integers, identity and generator points in Gammas, degree 0..3) are encoded by the application-side MakeABCIEvent, carried through the protobuf encoding the Tendermint RPC uses, decoded by the keyper-side MakeEvent and compared field by field with what was put in; (b) the same events arrive through a corrupting RPC fault (rpc.tm_corrupt_event: attribute dropped, duplicated, reordered, renamed, value truncated / bit-flipped / replaced by boundary strings, event type swapped): the decoder must not panic, and whatever it accepts must re-encode and decode to the same value (nothing silently mis-parsed). Real app-emitted events of the World A workload (votes, check-ins, DKG messages incl. empty lists) take path (a) as well. NOTE: the value dimension is seeded input sampling; end-to-end effects on keyper tables are covered by the World B checks. Non-trivial = an event with an empty list / zero value / identity point that decoded, or a corrupted event that was accepted; distinct = distinct trace hashes among those.",
+		Rule: "Event path shuttermint -> keyper. (a) generated typed events of all 8 types with boundary values (0, 1, 2^63, 2^64-1, empty / single / several element lists, empty byte strings, zero big integers, identity and generator points in Gammas, degree 0..3) are encoded by the application-side MakeABCIEvent, carried through the protobuf encoding the Tendermint RPC uses, decoded by the keyper-side MakeEvent and compared field by field with what was put in; (b) the same events arrive through a corrupting RPC fault (rpc.tm_corrupt_event: attribute dropped, duplicated, reordered, renamed, value truncated / bit-flipped / replaced by boundary strings, event type swapped): the decoder must not panic, and whatever it accepts must re-encode and decode to the same value (nothing silently mis-parsed). Real app-emitted events of the World A workload (votes, check-ins, DKG messages incl. empty lists) take path (a) as well. NOTE: the value dimension is seeded input sampling; end-to-end effects on keyper tables are covered by the World B checks. Every generated block (well-formed, corrupted and foreign events mixed) also goes through the observer driver's makeEvents: exactly the well-formed events, in order, none nil. Non-trivial = an event with an empty list / zero value / identity point that decoded, or a corrupted event that was accepted; distinct = distinct trace hashes among those.",
 		Assumptions: []string{"Tendermint transports event attributes as opaque strings (protobuf string fields)"},
 		Real:        []string{"shutterevents.*.MakeABCIEvent", "shutterevents.MakeEvent and all decode helpers", "app.ShutterApp as event source for the World A part"},
 		Stub:        []string{"Tendermint RPC transport (protobuf marshal/unmarshal of abci.Event)"},
-		QuickRuns:   6000, ThoroughRuns: 600000, QuickMinimize: 300, ThoroughMinimize: 2000,
+		QuickRuns:   20000, ThoroughRuns: 600000, QuickMinimize: 300, ThoroughMinimize: 2000,
 	})
 }
 
